@@ -222,6 +222,9 @@ func c16RenderIn(stmts []c16Stmt, sep string, cli, inFn bool) string {
 			t = "c16nocmd" + id + " a"
 		case "pragma":
 			t = "pragma unknown-command = disallow"
+		case "rawbyte":
+			// bytes that are not valid UTF-8, inside a string and a comment
+			t = "nop 'x\xffy' \"\xc3\" # \x80\xfe"
 		case "nop":
 			t = "nop"
 		case "bad":
@@ -427,7 +430,7 @@ func c16CheckCase(c c16Case, info *c16Info) error {
 var c16Kinds = []string{
 	"put", "put", "echo", "echo", "print", "eecho", "touch", "touch", "touch", "setprobe", "setprobe", "setelem", "setenv",
 	"var", "var", "var", "varprobe", "useref", "useref", "setref", "del", "fn", "fn", "callfn", "usemod", "modcall",
-	"if", "for", "lambda", "lamvar", "try", "capture", "pipe", "with", "tmpfn", "fail", "unknown", "pragma", "nop",
+	"if", "for", "lambda", "lamvar", "try", "capture", "pipe", "with", "tmpfn", "fail", "unknown", "pragma", "nop", "rawbyte",
 }
 
 var c16Blocks = map[string]bool{"fn": true, "if": true, "for": true, "lambda": true, "lamvar": true, "try": true, "capture": true, "pipe": true, "with": true, "tmpfn": true}
